@@ -167,6 +167,33 @@ pub fn commutator_program(rng: &mut Rng, st: ScalarType, variant: usize) -> Prog
     Prog { ctx, g, input_types: vec![ta, tb], attempts: vec![] }
 }
 
+/// running product of n 2x2 matrices as an Iterate with an associative, non-commutative body and
+/// a per-step output (the depth-optimised inliner turns it into a prefix-product network)
+pub fn iterate_matprod_program(n: u64, st: ScalarType) -> Prog {
+    let ctx = create_context().unwrap();
+    let mt = array_type(vec![2, 2], st);
+    let body = ctx.create_graph().unwrap();
+    let s = body.input(mt.clone()).unwrap();
+    let x = body.input(mt.clone()).unwrap();
+    let ns = s.matmul(x).unwrap();
+    body.create_tuple(vec![ns.clone(), ns]).unwrap().set_as_output().unwrap();
+    body.add_annotation(GraphAnnotation::AssociativeOperation).unwrap();
+    body.finalize().unwrap();
+    let g = ctx.create_graph().unwrap();
+    let init = g.input(mt.clone()).unwrap();
+    let items_t = array_type(vec![n, 2, 2], st);
+    let items = g.input(items_t.clone()).unwrap();
+    let r = g.iterate(body, init, items.array_to_vector().unwrap()).unwrap();
+    let outs = r.tuple_get(1).unwrap().vector_to_array().unwrap();
+    let fin = r.tuple_get(0).unwrap();
+    let o = outs.sum(vec![0]).unwrap().add(fin).unwrap();
+    g.set_output_node(o).unwrap();
+    g.finalize().unwrap();
+    ctx.set_main_graph(g.clone()).unwrap();
+    ctx.finalize().unwrap();
+    Prog { ctx, g, input_types: vec![mt, items_t], attempts: vec![] }
+}
+
 fn ring_obligation(id: usize, p: &Prog, c: &Compiled, owners: &[IOStatus], outs: &[IOStatus]) -> String {
     // quantified ring variables and the two input lists
     let mut vars = vec![];
@@ -286,6 +313,21 @@ pub fn run(tier: &str, seed: u64, out: &mut Out) {
         let its = p.input_types.clone();
         out.stat("stream:commutator");
         end_to_end(&p, &owners, &outs, mname, mode, &mut rng, out, 1, &move |r: &mut Rng| its.iter().map(|t| gen_value(t, r)).collect(), "commutator");
+    }
+    // (1) Iterate with an associative non-commutative body through every inlining mode
+    let n_iter = match tier { "thorough" => 12, "search" => 36, _ => 3 };
+    for i in 0..n_iter {
+        let n = [16u64, 21, 3, 17, 32, 5][i % 6];
+        let st = [UINT64, INT32, UINT8][(i / 3) % 3];
+        let p = iterate_matprod_program(n, st);
+        let owners = [vec![IOStatus::Party(0), IOStatus::Party(1)], vec![IOStatus::Public, IOStatus::Party(2)], vec![IOStatus::Shared, IOStatus::Party(0)]][(i / 2) % 3].clone();
+        let outs = all_outs[(i * 7 + 2) % all_outs.len()].clone();
+        // the depth-optimised default mode first: it picks the segment-tree strategy from 16 elements on
+        let (mname, mode) = modes[(i + 1) % 3].clone();
+        let its = p.input_types.clone();
+        out.stat("stream:iterate-matprod");
+        out.stat(&format!("iterate-matprod:inline:{}", mname));
+        end_to_end(&p, &owners, &outs, mname, mode, &mut rng, out, 1, &move |r: &mut Rng| its.iter().map(|t| gen_value(t, r)).collect(), "iterate-matprod");
     }
     // deep model of the compiler: literal tie
     crate::c01deep::run(tier, &mut rng, out);
